@@ -342,7 +342,9 @@ fn run_batches<P: Property>(
                                 }
                                 if let Some(v) = &rep.violation {
                                     e.1 += 1;
-                                    violating.fetch_add(1, Ordering::Relaxed);
+                                    // a run that exhausted its step budget is expensive: four of them end the exploration
+                                    let weight = if v.class.starts_with("no-termination") { 12 } else { 1 };
+                                    violating.fetch_add(weight, Ordering::Relaxed);
                                     if agg.violations.len() < 10_000 {
                                         agg.violations.push((b.name.to_string(), idx, v.clone()));
                                     }
